@@ -462,6 +462,10 @@ class Term:
         svars = self.get_svars()
         for v in svars:
             if v.name in inst:
+                # get_type does not look at arguments: an open replacement
+                # would be captured by the binders it is substituted under.
+                if inst[v.name].is_open():
+                    raise TermException("subst: replacement of ?" + v.name + " is not closed")
                 try:
                     inst_T = inst[v.name].get_type()
                     v.T.match_incr(inst_T, inst.tyinst)
@@ -482,7 +486,7 @@ class Term:
                 if t.name in inst.var_inst:
                     s = inst.var_inst[t.name]
                     # The replacement must be closed and of the variable's type.
-                    if s.get_type() != t.T:
+                    if s.is_open() or s.get_type() != t.T:
                         raise TermException("subst: type of " + t.name + " does not match its replacement")
                     return s
                 else:
